@@ -134,6 +134,9 @@ func identName(e ast.Expr) string {
 
 func genDirectiveTables(repo string) string {
 	p := loadPkg(repo, "directive")
+	// how the tables below are READ by the library (ss[de], the parent -> set-of-children lookup, the spelling of
+	// response codes, IsStartWithDirective) is modelled by hand: pinned
+	checkPins(p, "tables", "directive")
 	kinds := constBlockNames(p, "enumeration.go", "Enumeration")
 	known := map[string]bool{}
 	for _, k := range kinds {
@@ -244,23 +247,41 @@ func joinMap(xs []string, f func(string) string, sep string) string {
 }
 
 func responseCodeRange(p *pkg) (int, int) {
+	// func isHTTPResponseCode(code int) bool { return code >= LO && code <= HI }
 	fd := p.funcs["isHTTPResponseCode"]
-	if fd == nil || len(fd.Body.List) != 1 {
-		fatal("isHTTPResponseCode shape")
+	if fd == nil {
+		fatal("isHTTPResponseCode not found")
 	}
-	ret := fd.Body.List[0].(*ast.ReturnStmt)
+	if fd.Recv != nil || fd.Type.Params == nil || len(fd.Type.Params.List) != 1 || len(fd.Type.Params.List[0].Names) != 1 ||
+		identName(fd.Type.Params.List[0].Type) != "int" || len(fd.Body.List) != 1 {
+		p.bad(fd, "isHTTPResponseCode shape: func(code int) bool { return code >= LO && code <= HI } expected")
+	}
+	param := fd.Type.Params.List[0].Names[0].Name
+	ret, ok := fd.Body.List[0].(*ast.ReturnStmt)
+	if !ok || len(ret.Results) != 1 {
+		p.bad(fd, "isHTTPResponseCode shape: a single return expected")
+	}
 	be, ok := ret.Results[0].(*ast.BinaryExpr)
 	if !ok || be.Op != token.LAND {
 		p.bad(ret, "isHTTPResponseCode expression")
 	}
 	l, ok1 := be.X.(*ast.BinaryExpr)
 	r, ok2 := be.Y.(*ast.BinaryExpr)
-	if !ok1 || !ok2 || l.Op != token.GEQ || r.Op != token.LEQ || identName(l.X) != "code" || identName(r.X) != "code" {
+	if !ok1 || !ok2 || l.Op != token.GEQ || r.Op != token.LEQ || identName(l.X) != param || identName(r.X) != param {
 		p.bad(ret, "isHTTPResponseCode expression")
 	}
-	lo, _ := strconv.Atoi(l.Y.(*ast.BasicLit).Value)
-	hi, _ := strconv.Atoi(r.Y.(*ast.BasicLit).Value)
-	return lo, hi
+	bound := func(e ast.Expr) int {
+		bl, ok := e.(*ast.BasicLit)
+		if !ok || bl.Kind != token.INT {
+			p.bad(e, "isHTTPResponseCode bound: an integer literal expected")
+		}
+		v, err := strconv.Atoi(bl.Value)
+		if err != nil {
+			p.bad(e, "isHTTPResponseCode bound: a decimal literal expected")
+		}
+		return v
+	}
+	return bound(l.Y), bound(r.Y)
 }
 
 func adderKeys(cp *pkg, known map[string]bool) []string {
